@@ -143,6 +143,8 @@ def _value(rng, kind, nodes, class_nodes=None):
         return lit("2020-01-0%d" % rng.randrange(1, 9), XSD + "date")
     if kind == "iri":   # an IRI that is not an instance of anything
         return iri(EX + "ext%d" % rng.randrange(6))
+    if kind == "cdt":   # custom datatype; some lexical forms hold characters str.splitlines() would cut at
+        return lit(rng.choice(["5", "7.5", "x\u2028y", "a\u0085b", "12 km"]), EX + "dt/km")
     if kind == "iri2":  # IRIs with another scheme than http(s)
         return iri(rng.choice(["urn:ex:u%d", "mailto:u%d@ex.org"]) % rng.randrange(4))
     raise ValueError(kind)
@@ -391,7 +393,7 @@ def _pname_ok(local):
     return re.match(r"^[A-Za-z][A-Za-z0-9_]*$", local) is not None
 
 
-def to_turtle(triples, group=True, use_a=True, dialect="standard"):
+def to_turtle(triples, group=True, use_a=True, dialect="standard", prefixed_custom_datatypes=False):
     """Turtle with @prefix lines, prefixed names, 'a', ';' and ',' grouping.
     dialect='iter': the subset sheXer's streaming reader documents (closures are
     separate tokens; datatypes written with the xsd: prefix or as full IRIs)."""
@@ -418,6 +420,9 @@ def to_turtle(triples, group=True, use_a=True, dialect="standard"):
         if dt is None or dt == XSD + "string":
             return '"%s"' % lex
         ns, local = _split_iri(dt)
+        if dialect == "iter" and ns != XSD and not prefixed_custom_datatypes:
+            # the streaming reader resolves only xsd:/rdf:/dt:/geo: datatype prefixes; others are written in full
+            return '"%s"^^<%s>' % (lex, dt)
         return '"%s"^^%s:%s' % (lex, table[ns], local)
     out = ["@prefix %s: <%s> ." % (p, ns) for ns, p in table.items()]
     out.append("")
